@@ -22,6 +22,9 @@ use crate::verif::sync::atomic::{AtomicBool, AtomicU64, Ordering};
 use crate::verif::thread;
 #[cfg(not(cadence_verif))]
 use std::sync::atomic::{AtomicBool, AtomicU64, Ordering};
+#[cfg(cadence_verif)]
+use crate::verif::sync::Arc;
+#[cfg(not(cadence_verif))]
 use std::sync::Arc;
 #[cfg(not(cadence_verif))]
 use std::thread;
@@ -543,6 +546,9 @@ mod tests {
     use std::io;
     use std::panic;
     use std::sync::atomic::{AtomicBool, Ordering};
+    #[cfg(cadence_verif)]
+    use crate::verif::sync::Arc;
+    #[cfg(not(cadence_verif))]
     use std::sync::Arc;
     use std::thread;
 
